@@ -150,6 +150,16 @@ def generate(rng, tier):
         case.update({"mode": "custom", "demands": demands, "universe": uni, "initial": init,
                      "peer": rng.choice(["best", "best", "first_improving", "worst_improving", "always_best"])})
     case["max_nodes"] = rng.choice([50, 200]) if case["solver"] == "bp" else None
+    if case["mode"] == "custom" and rng.random() < 0.3:
+        case["initial"] = [list(c) for c in case["universe"]]  # the complete column set is handed over up front
+    if case["mode"] == "stock" and rng.random() < 0.3:
+        # the caller edits its own size / demand lists in place and solves again with the same list objects
+        k = rng.randrange(len(case["sizes"]))
+        sib_sizes = list(case["sizes"])
+        sib_sizes[k] = rng.randrange(1, int(case["W"]) + 1)
+        sib_dem = list(case["demands"])
+        sib_dem[rng.randrange(len(sib_dem))] = rng.randrange(0, 5)
+        case["sibling"] = {"sizes": sib_sizes, "demands": sib_dem}
     case["max_iter"] = rng.choice([None, None, 20, 100])
     # a relative gap tolerance below 1/20 cannot legitimise a non-minimal plan on these instances (objective <= 20 rolls,
     # integer objective), so OPTIMAL must still mean minimal
@@ -366,6 +376,16 @@ def execute(case) -> Outcome:
             o.fault("budget_cut")
             judge(case, v, o, f"max_nodes={mn} (baseline explored {nodes})", opt, True, "budget")
             summ.append([f"mn{mn}", _s(v)])
+    if case.get("sibling") and case["mode"] == "stock" and isinstance(case["_inputs"]["sizes"], list):
+        # same list objects, edited in place: nothing remembered from the previous solves may leak into this one
+        sib = dict(case, sizes=case["sibling"]["sizes"], demands=case["sibling"]["demands"])
+        case["_inputs"]["sizes"][:] = sib["sizes"]
+        case["_inputs"]["demands"][:] = sib["demands"]
+        sib["_inputs"] = case["_inputs"]
+        opt2 = cover_min(maximal_patterns(sib["W"], sib["sizes"], sib["demands"]), sib["demands"])
+        v = run_variant(sib, {"kind": "never"})
+        judge(sib, v, o, "second instance through the same (edited) list objects", opt2, False, "none")
+        summ.append(["sib", _s(v)])
     o.trace = [case["solver"], case["mode"], summ]
     if base["stats"]["pricing_calls"] >= 2 or (case["solver"] == "bp" and res.iterations >= 2):
         o.nontrivial = True
@@ -385,6 +405,11 @@ def _s(v):
 
 
 def shrink(case):
+    if case.get("sibling"):
+        c = copy.deepcopy(case)
+        del c["sibling"]
+        yield c
+        return  # keep the pair intact while it is needed: the other shrinks would desynchronise it
     f = case["faults"]
     for k in ("cancel", "cut_iter", "cut_nodes"):
         if f[k]:
